@@ -136,6 +136,7 @@ class Req(object):
 class SimWorld(object):
 
     BLOCK_BOUND = 0.25      # virtual seconds slept inside one loop iteration
+    FAILED_SPAWN_COST = 0.002
 
     def __init__(self, watchers=(), arbiter_opts=None, tape=(), start=1000.0,
                  config_file=None, default_beh=None, mode='daemon',
@@ -207,6 +208,24 @@ class SimWorld(object):
                 raise SimBlocked()
 
         k.sleep_fn = v_sleep
+
+        def v_fail_cost():
+            # a spawn that fails (fork, exec error reported through the
+            # pipe, wait) keeps the loop for about 2 ms of real time; it
+            # counts towards the blocked-time meter without moving the
+            # virtual clock, so that an unbounded retry loop is seen (and
+            # ended) instead of hanging the harness
+            world.cb_slept += world.FAILED_SPAWN_COST
+            if world.cb_slept > world.max_cb_slept:
+                world.max_cb_slept = world.cb_slept
+            if world.cb_slept > world.BLOCK_BOUND:
+                if not world.blocked:
+                    import traceback
+                    world.blocked = True
+                    world.blocked_where = _innermost_circus_frame(
+                        traceback.extract_stack())
+                raise SimBlocked()
+        k.fail_cost = v_fail_cost
 
         def v_waitpid(pid, options):
             return k.waitpid(pid, options)
